@@ -404,9 +404,12 @@ package tor
 // requestPiece: a wait channel is only ever created for a piece that was NOT
 // complete when looked at (a channel made for a complete piece would never be
 // closed: lost wake-up); withdrawing uses Del; the table invariant is kept.
+// Ghost_complete: "the piece is not known to be incomplete" (true until
+// Pieces.Complete has answered).
 //@ func requestPiece
 //@   requires t != nil && GeomSizes(t) && PGeom(t) && RQ(&t.requested)
 //@   ghostvar Ghost_complete bool
+//@   ghostinit Ghost_complete = true
 //@   atcall   (*Pieces).Complete :: true :: Ghost_complete = $r0
 //@   modifies *
 //@   assertcall [nowait] (*Requested).Add :: want ==> !Ghost_complete
